@@ -5,3 +5,5 @@ pub mod logworld;
 pub mod memstore;
 pub mod populate;
 pub mod ordstore;
+pub mod syncwire;
+pub mod syncnet;
